@@ -8,14 +8,15 @@ import journal as J
 
 LEVEL = "proof"
 COQ_TARGETS = ("props/C11.vo",)
-THEOREMS = ["C11_seqno_above_all", "C11_later_write_wins_partial"]
+THEOREMS = ["C11_seqno_above_all", "C11_later_write_wins", "C11_reads_agree_after_reopen", "C11_counter_above_after_reopen",
+            "C11_example", "C11_later_write_wins_partial"]
 
 
 def programs(seed, n, nops):
     out = []
     for i in range(n):
         mode = ["plain", "plain", "sw", "occ"][i % 4]
-        g = Gen(seed * 100043 + i, mode=mode, nks=1 + i % 3, configs=["", "", "blob=8", "fifo=4000000000", "blob=1"], sealing=(2 if i >= n - max(12, n // 12) else 0),
+        g = Gen(seed * 100043 + i, mode=mode, nks=1 + i % 3, configs=["", "", "blob=8", "blob=1"], sealing=(2 if i >= n - max(12, n // 12) else 0),
                 weights=dict(reopen=2, snap=0.5, it=0, tx=0, txop=0, gc=0.3, ks=0.3, delks=0, ingest=2, clear=1.5,
                              major=1.5, rotate=3, step=3, delete=5))
         p = g.program(nops)
